@@ -173,7 +173,7 @@ def audit_axioms(module: str, theorems: list[str], timeout=1200) -> dict:
     cur = None
     txt = r.stdout
     # messages look like: 'X' depends on axioms: [a, b]  /  'X' does not depend on any axioms
-    for m in re.finditer(r"'([^']+)' (does not depend on any axioms|depends on axioms: \[([^\]]*)\])", txt, flags=re.S):
+    for m in re.finditer(r"'(\S+)' (does not depend on any axioms|depends on axioms: \[([^\]]*)\])", txt, flags=re.S):
         name = m.group(1)
         axs = [] if m.group(3) is None else [a.strip() for a in m.group(3).replace("\n", " ").split(",") if a.strip()]
         out[name] = axs
